@@ -1,6 +1,9 @@
 package verifsim
 
-import "fmt"
+import (
+	"fmt"
+	"unsafe"
+)
 
 // Identity assertion (C14, oracle O4): the instrumented cache entry points
 // report every (requested type, returned program, program's own type) triple.
@@ -19,6 +22,10 @@ const idTabSize = 1 << 16
 
 var (
 	idKeys   [2][idTabSize]uintptr // program -> slot
+	// idAlive keeps every program seen reachable: a program that lost a
+	// compile race is garbage otherwise, and its address could be reused by a
+	// program compiled later for another type (a false "shared program").
+	idAlive [2][idTabSize]unsafe.Pointer
 	idTypes  [2][idTabSize]uintptr // first type seen for the program
 	idChecks uint64
 	idProgs  uint64
@@ -62,6 +69,7 @@ func CheckProgram(kind string, reqType, prog, ownType uintptr) {
 	}
 	if idKeys[tab][s] == 0 {
 		idKeys[tab][s] = prog
+		idAlive[tab][s] = *(*unsafe.Pointer)(unsafe.Pointer(&prog))
 		idTypes[tab][s] = reqType
 		idProgs++
 		return
